@@ -188,9 +188,10 @@ func render(idx bleve.Index) (string, error) {
 func adjacentGroup(search.DocumentMatchCollection, int, int) bool { return false }
 
 type layout struct {
-	name string
-	disk bool
-	cfg  map[string]interface{}
+	gated bool // park the first merge task and let the remaining operations land while it is in flight
+	name  string
+	disk  bool
+	cfg   map[string]interface{}
 	// parts: partition of the history into consecutive batches (nil = one op per batch)
 	parts func(n int) [][]int
 	post  string // "" | forcemerge | reopen | forcemerge+reopen
@@ -253,6 +254,8 @@ var unsafe2 = map[string]interface{}{"unsafe_batch": true, "scorchPersisterOptio
 func layouts(quick bool) []layout {
 	ls := []layout{
 		{name: "disk-aggressive-merge", disk: true, cfg: map[string]interface{}{"scorchMergePlanOptions": bx.AggressiveMergePlan}},
+		{name: "disk-partial-merge", disk: true, cfg: map[string]interface{}{"scorchMergePlanOptions": bx.PartialMergePlan}},
+		{name: "disk-operations-land-while-merge-in-flight", disk: true, gated: true, cfg: map[string]interface{}{"scorchMergePlanOptions": bx.AggressiveMergePlan}},
 		{name: "disk-nomerge+forcemerge+reopen", disk: true, cfg: map[string]interface{}{"scorchMergePlanOptions": bx.NoMergePlan}, post: "forcemerge+reopen"},
 		{name: "disk-unsafe-2-persister-workers", disk: true, cfg: unsafe2},
 		{name: "mem-zap15", cfg: map[string]interface{}{"forceSegmentType": "zap", "forceSegmentVersion": 15}},
@@ -272,7 +275,33 @@ func build(l layout, ops []op, parts [][]int, dir string) (bleve.Index, error) {
 	if l.disk {
 		p = dir + "/" + l.name
 	}
-	idx, err := bleve.NewUsing(p, bleve.NewIndexMapping(), scorch.Name, scorch.Name, bx.CopyConfig(l.cfg))
+	cfg := bx.CopyConfig(l.cfg)
+	if l.gated {
+		g := bx.AcquireGate()
+		defer g.Free()
+		cfg["eventCallbackName"] = g.Name()
+		idx, err := bleve.NewUsing(p, bleve.NewIndexMapping(), scorch.Name, scorch.Name, cfg)
+		if err != nil {
+			return nil, err
+		}
+		g.Arm()
+		for _, grp := range parts {
+			if err := apply(idx, ops, [][]int{grp}); err != nil {
+				g.Release()
+				idx.Close()
+				return nil, err
+			}
+			if g.IsParked() {
+				bx.Persisted(idx, 3*time.Second)
+			} else {
+				g.WaitParkedOrQuiet(idx, 3*time.Second)
+			}
+		}
+		g.Release()
+		bx.Quiesce(idx, 3*time.Second)
+		return idx, nil
+	}
+	idx, err := bleve.NewUsing(p, bleve.NewIndexMapping(), scorch.Name, scorch.Name, cfg)
 	if err != nil {
 		return nil, err
 	}
@@ -462,13 +491,17 @@ func Run(r *mc.Run) {
 	r.Note("histories", len(paths))
 	r.Note("layouts_per_history", "all batch partitions + "+fmt.Sprint(len(lays)))
 	var nseg int64
-	r.ParFor(len(paths), 0, func(pi int) {
-		p := paths[pi]
-		ops := make([]op, len(p))
+	_ = nseg
+	type variant struct {
+		l     layout
+		parts [][]int
+		pname string
+	}
+	// compare runs one history in the baseline layout and in every given variant
+	compare := func(ops []op, variants func(n int) []variant, sample bool) {
 		var names []string
-		for i, a := range p {
-			ops[i] = alpha[a]
-			names = append(names, ops[i].String())
+		for _, o := range ops {
+			names = append(names, o.String())
 		}
 		hist := strings.Join(names, " ")
 		dir := mc.ScratchDir("c05")
@@ -486,15 +519,14 @@ func Run(r *mc.Run) {
 			return
 		}
 		r.Eval(1)
-		live := strings.Count(want[strings.LastIndex(want, "count="):], "") // cheap
-		_ = live
 		r.Outcome(fmt.Sprintf("%s|%d", want[strings.LastIndex(want, "count="):], len(want)/400))
-		check := func(l layout, parts [][]int, pname string) {
-			idx, err := build(l, ops, parts, dir)
-			rep := map[string]any{"history": hist, "layout": l.name, "batches": pname}
+		for _, v := range variants(len(ops)) {
+			l := v.l
+			idx, err := build(l, ops, v.parts, dir)
+			rep := map[string]any{"history": hist, "layout": l.name, "batches": v.pname}
 			if err != nil {
 				r.Violation("layout-error:"+l.name, fmt.Sprintf("%v: %v", rep, err), rep)
-				return
+				continue
 			}
 			got, err := render(idx)
 			lay := bx.ScorchLayout(idx)
@@ -502,13 +534,13 @@ func Run(r *mc.Run) {
 			r.Eval(1)
 			if err != nil {
 				r.Violation("search-error:"+l.name, fmt.Sprintf("%v: %v", rep, err), rep)
-				return
+				continue
 			}
 			if lay != baseLayout {
 				r.Count("layout_pairs_physically_different", 1)
 			}
-			if strings.Count(lay, "|") < strings.Count(baseLayout, "|") {
-				nseg++
+			if strings.Contains(lay, ",") && strings.Contains(lay, "!") {
+				r.Count("layouts_with_a_multi_document_segment_holding_an_obsoleted_document", 1)
 			}
 			if got != want {
 				rep["baseline_layout"], rep["this_layout"] = baseLayout, lay
@@ -519,25 +551,86 @@ func Run(r *mc.Run) {
 				r.Violation("differs:"+cls, fmt.Sprintf("%v: %s", rep, firstDiff(want, got)), rep)
 			}
 		}
-		// every partition into consecutive batches (in memory)
-		for _, parts := range allPartitions(len(ops)) {
-			if len(parts) == len(ops) {
-				continue // the baseline itself
-			}
-			check(layout{name: "mem-batched"}, parts, fmt.Sprint(parts))
-		}
-		for li, l := range lays {
-			if r.Quick() && len(ops) == 3 && l.disk && (pi+li)%2 == 1 {
-				continue // quick tier: alternate the on-disk layouts over the depth-3 histories
-			}
-			check(l, perOp(len(ops)), "per-op")
-			if l.disk && len(ops) >= 2 && !r.Quick() {
-				check(l, allPartitions(len(ops))[1], "first-two-together")
-			}
-		}
-		if pi == len(paths)/2 {
+		if sample {
 			r.Sample(map[string]any{"history": hist, "baseline_layout": baseLayout, "requests": len(queries()) * len(sorts)})
 		}
+	}
+	r.ParFor(len(paths), 0, func(pi int) {
+		p := paths[pi]
+		ops := make([]op, len(p))
+		for i, a := range p {
+			ops[i] = alpha[a]
+		}
+		compare(ops, func(n int) []variant {
+			var vs []variant
+			// every partition into consecutive batches (in memory)
+			for _, parts := range allPartitions(n) {
+				if len(parts) == n {
+					continue // the baseline itself
+				}
+				vs = append(vs, variant{layout{name: "mem-batched"}, parts, fmt.Sprint(parts)})
+			}
+			for li, l := range lays {
+				if r.Quick() && n == 3 && l.disk && (pi+li)%2 == 1 {
+					continue // quick tier: alternate the on-disk layouts over the depth-3 histories
+				}
+				vs = append(vs, variant{l, perOp(n), "per-op"})
+				if l.disk && n >= 2 && !r.Quick() {
+					vs = append(vs, variant{l, allPartitions(n)[1], "first-two-together"})
+				}
+			}
+			return vs
+		}, pi == len(paths)/2)
+	})
+	// second family: multi-document segments. Histories of length 4 (thorough: also 5 over 4 ids) over a
+	// small alphabet, batched so that the first segment holds 2–3 documents; on-disk layouts whose merges
+	// are partial (a kept segment with obsoleted documents next to a merge) or are overtaken by later
+	// operations (merge parked in flight).
+	var multi []layout
+	for _, l := range lays {
+		if l.name == "disk-partial-merge" || l.gated || l.name == "disk-aggressive-merge" {
+			multi = append(multi, l)
+		}
+	}
+	small := []op{{id: "p", ver: 0}, {id: "q", ver: 0}, {id: "r", ver: 0}, {id: "p", ver: 1}, {del: true, id: "p"}, {del: true, id: "q"}}
+	var fam [][]op
+	var recm func(cur []op, n int, al []op)
+	recm = func(cur []op, n int, al []op) {
+		if len(cur) == n {
+			fam = append(fam, append([]op{}, cur...))
+			return
+		}
+		for _, o := range al {
+			recm(append(cur, o), n, al)
+		}
+	}
+	recm(nil, 4, small)
+	nfam4 := len(fam)
+	if !r.Quick() {
+		small5 := append(append([]op{}, small...), op{id: "s", ver: 0})
+		recm(nil, 5, small5)
+	}
+	r.Note("multi_document_segment_histories", len(fam))
+	r.ParFor(len(fam), 0, func(fi int) {
+		ops := fam[fi]
+		compare(ops, func(n int) []variant {
+			var vs []variant
+			var partsList [][][]int
+			if n == 4 {
+				partsList = [][][]int{{{0, 1}, {2}, {3}}, {{0, 1, 2}, {3}}}
+			} else {
+				partsList = [][][]int{{{0, 1, 2}, {3}, {4}}, {{0, 1}, {2, 3}, {4}}}
+			}
+			for li, l := range multi {
+				for pi2, parts := range partsList {
+					if r.Quick() && (fi+li+pi2)%2 == 1 {
+						continue
+					}
+					vs = append(vs, variant{l, parts, fmt.Sprint(parts)})
+				}
+			}
+			return vs
+		}, fi == nfam4/2)
 	})
 	r.Count("layouts_with_fewer_segments_than_baseline", nseg)
 	r.Sample(map[string]any{"history": "I(p,v0) I(q,v2) D(p)", "layouts": "baseline per-op | [[0 1] [2]] | [[0] [1 2]] | one batch | disk-aggressive-merge | disk-nomerge+forcemerge+reopen | disk-unsafe-2-persister-workers | mem-zap15"})
